@@ -15,6 +15,11 @@ import core
 
 Q = 8            # fine units per ground unit
 NANV = 9999
+INFV = 9998      # +-INFV code +-infinity: beyond every finite value of the families
+
+
+def enc(v):
+    return NANV if v is None else INFV if v == float("inf") else -INFV if v == float("-inf") else int(v)
 
 
 def q(v):
@@ -34,8 +39,10 @@ def absval(v, nodata):
         v = float(v)
     except Exception:
         return [3, 0, 1]
-    if math.isnan(v) or math.isinf(v):
+    if math.isnan(v):
         return [3, 0, 1]
+    if math.isinf(v):
+        return [1, INFV if v > 0 else -INFV, 1]
     if v == nodata:
         return [0, 0, 1]
     f = Fraction(v).limit_denominator(64)
@@ -65,7 +72,7 @@ def call_summarize(tracks, res, margin):
     from tracklib.algo.summarising import summarize
     from tracklib.core.utils import co_count, co_sum, co_min, co_max, co_avg, co_median
     flat = [p for t in tracks for p in t]
-    e = {"ev": "sum", "raised": False, "obs": [[q(x), q(y), NANV if v is None else int(v)] for (x, y, v) in flat],
+    e = {"ev": "sum", "raised": False, "obs": [[q(x), q(y), enc(v)] for (x, y, v) in flat],
          "g": {"xmin": 0, "ymin": 0, "rx": 1, "ry": 1, "ncol": 1, "nrow": 1}, "cells": [], "tagcount": [], "grids": [],
          "cfg": "res=%s margin=%s" % (res, margin)}
     try:
@@ -161,7 +168,8 @@ def job_random(args):
                 step = rnd.choice([0.25, 0.5, 1])
                 x = rnd.randrange(0, int(W / step) + 1) * step
                 y = rnd.randrange(0, int(H / step) + 1) * step
-                tr.append((x, y, None if rnd.random() < 0.25 else rnd.randrange(-3, 6)))
+                u = rnd.random()
+            tr.append((x, y, None if u < 0.25 else (float("inf") if u < 0.29 else float("-inf") if u < 0.35 else rnd.randrange(-3, 6))))
             tracks.append(tr)
         out.append(call_summarize(tracks, res, margin))
     return out
